@@ -32,6 +32,7 @@ type half struct {
 	closed   bool // writer closed: reader gets EOF after draining
 	reset    bool // reader gets an error immediately
 	hole     bool // bytes written from now on silently never arrive
+	resetAt  time.Duration // >0: the connection is reset at this simulated time (a silent link does not stay up forever)
 	cond     simrt.Cond
 	consumed uint64
 }
@@ -41,6 +42,8 @@ type Link struct {
 	BaseLatency time.Duration // >= 1ms
 	Jitter      time.Duration
 	Frag        bool // deliver writes in tape-sized pieces
+	HoleFor     time.Duration // how long a black-holed connection stays up before it is reset
+	resetAt     time.Duration
 	Tape        *simrt.Tape
 	// FaultAtWrite, if set, is asked before every write (n = write index on this conn, side 0 =
 	// dialer side): returns "", "close", "reset" or "hole".
@@ -106,6 +109,11 @@ func (c *Conn) Read(p []byte) (int, error) {
 			return 0, errReset
 		}
 		now := s.Now()
+		if ra := c.link.resetAt; ra > 0 && now >= ra {
+			c.in.reset, c.out.reset = true, true
+			c.peer.in.cond.Broadcast()
+			return 0, errReset
+		}
 		if len(c.in.q) > 0 && c.in.q[0].at <= now {
 			ch := &c.in.q[0]
 			n := copy(p, ch.data)
@@ -124,6 +132,9 @@ func (c *Conn) Read(p []byte) (int, error) {
 		if len(c.in.q) > 0 {
 			wait = c.in.q[0].at - now
 		}
+		if ra := c.link.resetAt; ra > 0 && (wait < 0 || ra-now < wait) {
+			wait = ra - now
+		}
 		c.in.cond.Wait(wait)
 	}
 }
@@ -132,6 +143,9 @@ func (c *Conn) Write(p []byte) (int, error) {
 	simrt.Yield()
 	if c.closedMe {
 		return 0, errClosed
+	}
+	if ra := c.link.resetAt; ra > 0 && simrt.S.Now() >= ra {
+		c.in.reset, c.out.reset = true, true
 	}
 	if c.out.reset || c.in.reset {
 		return 0, errReset
@@ -154,6 +168,15 @@ func (c *Conn) Write(p []byte) (int, error) {
 			return 0, errReset
 		case "hole":
 			c.out.hole = true
+			if c.link.resetAt == 0 {
+				d := c.link.HoleFor
+				if d <= 0 {
+					d = 3 * time.Minute
+				}
+				c.link.resetAt = simrt.S.Now() + d
+				c.in.cond.Broadcast() // readers re-arm their wait with the reset deadline
+				c.out.cond.Broadcast()
+			}
 		}
 	}
 	if c.out.hole {
